@@ -121,15 +121,22 @@ def run_check(pid, mod, tier, seed):
     stubs_used, contracts_used, weak_loops, inlined = set(), set(), [], set()
     trivial = 0
     pre_solved = []      # (obligation shell, result) pairs decided inside the subtree workers
+    unreadable = []      # units whose contract no longer fits the code (shape of a loop / names changed): exit 3 unless a native battery fails
     for c in units:
         x = Explorer(REG, c)
-        if getattr(c, "parallel", False) or os.environ.get("PYVC_PARALLEL_ALL"):
-            obs, solved = explore_parallel(x, c)
-            obs = dedupe(obs)
-            pre_solved.extend(solved)
-        else:
-            obs = dedupe(x.explore())
-            solved = []
+        try:
+            if getattr(c, "parallel", False) or os.environ.get("PYVC_PARALLEL_ALL"):
+                obs, solved = explore_parallel(x, c)
+                obs = dedupe(obs)
+                pre_solved.extend(solved)
+            else:
+                obs = dedupe(x.explore())
+                solved = []
+        except (EngineError, ExtractionError) as e:
+            if str(e).startswith("UNDECIDED") or c.fq not in REG.replays:
+                raise
+            unreadable.append((c, f"{type(e).__name__}: {e}"))
+            continue
         nontrivial_by_unit = len(obs) + len(solved)
         if nontrivial_by_unit + x.trivial == 0:
             print(f"CHECKER-FAILURE property={pid} zero obligations for {c.fq}")
@@ -177,6 +184,29 @@ def run_check(pid, mod, tier, seed):
     if not obligations and not syn_results and not bounded_results:
         print(f"CHECKER-FAILURE property={pid} no obligations generated")
         return 3
+    if unreadable:
+        # The contract of a unit cannot be read against the changed code.  That alone is a checker failure (exit 3), never a
+        # verdict - unless the unit's native scenario battery exhibits an input on which the real code breaks the contract's
+        # oracle: then that failing input is reported (VIOLATION, replayed), with the unreadable unit named.
+        os.makedirs(os.path.join(VERIF, "replays", pid), exist_ok=True)
+        witnessed = False
+        for c, why in unreadable:
+            class _O:
+                pass
+            o_ = _O()
+            o_.unit, o_.name, o_.kind, o_.note, o_.path = c.fq, "unreadable#contract_no_longer_fits_the_code", "bounded", why, []
+            rep = try_replay(pid, o_, {"model": None})
+            if rep and rep.get("confirmed"):
+                path = write_replay(pid, o_, {"backend": "native-battery", "verdict": "failing input (the contract could not be read against this code: " + why[:200] + ")"}, rep)
+                print(f"VIOLATION property={pid} replay={path} obligation={c.fq}/{o_.name}")
+                witnessed = True
+            else:
+                print(f"CHECKER-FAILURE property={pid} {why}")
+        write_evidence(pid, tier, seed, {"obligations": 0, "discharged": 0, "checker_cmd": f"./check {pid} --tier {tier}", "trusted_base": [],
+                                         "explanation": "a contract no longer fits the code: " + "; ".join(w for _c, w in unreadable)[:1500]},
+                       time.time() - t0, 1 if witnessed else 0, status="violation" if witnessed else "checker-failure")
+        print(f"[{pid}] {'violation' if witnessed else 'checker-failure'}: contract of {', '.join(c.fq for c, _w in unreadable)} does not fit the code")
+        return 1 if witnessed else 3
     results = solve.solve_obligations(obligations)
     for o, r in pre_solved:
         obligations.append(o)
